@@ -36,12 +36,17 @@ func kv(pairs ...string) *BatchSpec {
 
 func workloads(nosync bool) []Workload {
 	big := strings.Repeat("x", 5000)
+	mop := func(b *BatchSpec, operand string) *BatchSpec {
+		b.Ops = append(b.Ops, Op{Kind: 'M', Key: "m", Val: operand}) // a merge operand: a round applied twice shows
+		return b
+	}
 	alpha := []*BatchSpec{
-		kv("a", "1", "marker", "r1"),
-		kv("b", "2", "marker", "r2", "a", "<del>"),
+		mop(kv("a", "1", "marker", "r1"), "x1"),
+		mop(kv("b", "2", "marker", "r2", "a", "<del>"), "x2"),
 		kv("c", big, "marker", "r3"),
-		kv("a", "4", "marker", "r4"),
+		mop(kv("a", "4", "marker", "r4"), "x4"),
 		kv("d", "5", "marker", "r5", "b", "<del>"),
+		kv("a", "<del>", "b", "<del>", "c", "<del>", "d", "<del>", "marker", "<del>", "m", "<del>"), // deletes everything
 	}
 	childAlpha := []*BatchSpec{
 		{Ops: kv("a", "1", "marker", "r1").Ops, Kids: kid("A", kv("ca", "1"))},
@@ -49,7 +54,7 @@ func workloads(nosync bool) []Workload {
 		{Ops: kv("b", "3", "marker", "r3").Ops},
 	}
 	c := func(cc int) Config {
-		return Config{Backing: "store", MinMergePct: 100, Concern: cc, NoSync: nosync, VFS: true, MaxSegs: 2, Mult: 2}
+		return Config{Backing: "store", MinMergePct: 100, Concern: cc, NoSync: nosync, VFS: true, MaxSegs: 2, Mult: 2, MergeOp: true}
 	}
 	lv := c(1) // leveled compaction that really reaches a partial (in-place) compaction with these batch sizes
 	lv.CompactPct = 0.99
@@ -60,6 +65,7 @@ func workloads(nosync bool) []Workload {
 		{"W-d: two rounds, revert to the first, one more round", c(0), alpha, []string{"B0", "M", "P", "B1", "M", "P", "V1", "B3", "M", "P"}},
 		{"W-e: three appending rounds with a child collection", c(0), childAlpha, []string{"B0", "M", "P", "B1", "M", "P", "B2", "M", "P"}},
 		{"W-f: leveled compaction, history ends right after a partial compaction (four rounds)", lv, alpha, []string{"B0", "M", "P", "B2", "M", "P", "B0", "M", "P", "B2", "M", "P"}},
+		{"W-h: forced compaction, second round deletes everything (the new file holds a footer only)", c(2), alpha, []string{"B0", "M", "P", "B5", "M", "P", "B3", "M", "P"}},
 		{"W-g: leveled compaction, partial compaction in the fifth round", lv, alpha, []string{"B0", "M", "P", "B2", "M", "P", "B0", "M", "P", "B0", "M", "P", "B1", "M", "P"}},
 	}
 }
@@ -164,7 +170,8 @@ func runWorkload(wl Workload, fault *faultSpec, each func(w *World, step string,
 	if w.infra != "" {
 		return w, w.infra
 	}
-	w.probes = []string{"marker", "a", "b", "c", "d"}
+	w.probes = []string{"marker", "a", "b", "c", "d", "m"}
+	w.markAcks = true
 	if w.vfs != nil {
 		w.vfs.Fault = fault
 	}
@@ -173,12 +180,7 @@ func runWorkload(wl Workload, fault *faultSpec, each func(w *World, step string,
 		switch {
 		case st == "P":
 			ok, w.lastAttempts = w.PersistRound(3)
-			if ok && w.vfs != nil {
-				p, d := w.storePrefix()
-				if d != nil {
-					w.vfs.Mark(p, d.String()) // p < 0 (not a prefix state) is reported by the oracles
-				}
-			}
+			// the acknowledgement marker is recorded by the update gate at the very moment Persist returns success
 		case st[0] == 'V':
 			if msg := w.revert(int(st[1] - '0')); msg != "" {
 				return w, "revert: " + msg
@@ -519,7 +521,7 @@ func c05Run(j c05Job) (res c05Res) {
 	}
 	res.Ops = len(ops)
 	res.Outcomes = map[int]int{}
-	probes := []string{"marker", "a", "b", "c", "d"}
+	probes := []string{"marker", "a", "b", "c", "d", "m"}
 	// exposed[k] = what the store exposed after the k-th acknowledgement (exposed[0] = empty store)
 	exposed := []string{NewNode().DumpT(probes).String()}
 	for _, o := range ops {
@@ -682,10 +684,10 @@ func checkC05(prop, tier string) int {
 	}
 	var metas []meta
 	modes := []bool{false}
-	wlIdx := []int{0, 1, 2, 3, 5}
+	wlIdx := []int{0, 1, 2, 3, 5, 6}
 	if tier == "thorough" {
 		modes = []bool{false, true}
-		wlIdx = []int{0, 1, 2, 3, 4, 5, 6}
+		wlIdx = []int{0, 1, 2, 3, 4, 5, 6, 7}
 	} else {
 		// quick: the NoSync (process-kill) model for the compaction workload only
 		jobs = append(jobs, Job{Kind: "c05", Data: mustJSON(c05Job{WL: 1, NoSync: true, From: 0, To: 1 << 30})})
